@@ -83,6 +83,14 @@ CLAIMED = {
             'with the unit normal from an independent analytic / Richardson reference; frame transforms as rigid motions. Misses, TIR and out-of-domain starts are excluded by the reference, never by NaNs.',
             'Trusted: closed-form conic geometry; Q-type surfaces built from Q2d_and_der with the r=0 polar singularity excluded (counted); tolerances >= 40x measured.',
             'bounded-exhaustive scope exploration (all short prescriptions) vs independent geometric reference', 'DESIGN.md 4/C19'),
+    'C17': ('Every stack of 0..3 layers (4 thorough) from the index x thickness alphabet x exit medium x ambient x wavelength, at every angle of the alphabet incl. Brewster and both polarisations, compared (complex r, t) with an independent admittance-form characteristic-matrix reference, '
+            'energy balance with the derived admittance factor, single interface == closed-form Fresnel functions, r_p(theta_B)=0, zero-thickness and half-wave-at-angle absentee insertion at every position, batched == loop for every batch shape and input form.',
+            'Trusted: the Macleod/Born-Wolf reference (cross-checked against a Rouard/Airy recursion to 4.6 eps); finite index/thickness/angle alphabets; tolerance 200 eps cond (silent at 6).',
+            'bounded-exhaustive scope exploration (all short stacks) vs independent reference model', 'DESIGN.md 4/C17'),
+    'C20': ('Every constructor over the retardance / angle / diattenuation / charge / rotation alphabets and every batch shape and subset of array arguments: unitarity, idempotence, Malus, rotation conjugation, reference values; jones_to_mueller on ALL ordered pairs of a matrix pool through both Kronecker paths against a Stokes-definition reference; Pauli reconstruction; '
+            'the propagation adapter over all five routines; plus a history part: add_jones_propagation installed 0, 1, 2 (3) times in a sub-process per case, plain and polarised calls compared with never-patched routines.',
+            'Trusted: Stokes-definition Mueller reference (Chipman sign convention); finite parameter alphabets; monkey-patching isolated in sub-processes.',
+            'bounded-exhaustive scope exploration (all ordered matrix pairs, all argument subsets) + installation-history enumeration in isolated processes', 'DESIGN.md 4/C20'),
 }
 
 PENDING_REASON = 'check not built yet in this revision (planned: DESIGN.md section 4); not claimed until its explorer exists and is silent on the fixed tree'
